@@ -318,7 +318,7 @@ def system_stream(ctx: lib.Ctx) -> None:
             cur["count"] += 1
             if size < cur["size"] and isinstance(t, str):
                 cur.update(text=t, ops=ops, exc=r["exc"], size=size, raw_key=r["key"])
-    known = {k["key"] for k in lib.load_known_findings() if k["property"] == "C01"}
+    known = {k["key"] for k in lib.load_known_findings() if k["kind"] == "finding" and k["property"] == "C01"}
     new = {k: v for k, v in found.items() if k not in known}
     shrink_failures(new)
     report(ctx, "texts", found)
